@@ -151,9 +151,8 @@ func aliasBoundsFor(thorough bool) aliasBounds {
 		lateOnlyChained: true,
 	}
 	if thorough {
-		b.priors = append(all(12), 15, 16, 17) // 16 -> 17: the next growth of a directly used back-offer's list
+		b.priors = append(all(12), 16, 17) // 16 -> 17: the next growth of a directly used back-offer's list
 		b.patterns = []int{1, 2, 3}
-		b.lateOnlyChained = false
 		b.farMerge = true
 		b.families = append(b.families,
 			seqFamily{s: 0, maxAB: 3, nk: 2}, // longer runs of each derived back-offer: the old kind and one new kind
